@@ -153,4 +153,25 @@ Proof.
   - rewrite (apply_crit _ _ Ha Ht). exact H0.
   - exact (proj1 (apply_keeps_tol _ _ _ _ Ha Ht Hn H0)).
 Qed.
+(* the case C17_same_behaviour leaves out: no tolerance given while the current criterion carries
+   one — set_merge by name then equals the constructor GIVEN THAT PREVIOUS TOLERANCE *)
+Lemma set_merge_name_is_ctor_with_kept_tol cf thr bf n t0 :
+  crit_tolerance (c_crit cf) = Some t0 ->
+  option_map c_crit (set_merge fexp None cf (AName n) None None None) =
+  option_map c_crit (ctor fexp None thr bf (AName n) (Some t0)).
+Proof.
+  intros H0. unfold set_merge, ctor. rewrite H0. cbn [opt_tol].
+  destruct (get_merge_accept_fn fexp n t0); reflexivity.
+Qed.
+(* ... and a constructor call equals a set_merge call with all four arguments on ANY estimator
+   that does not use the legacy global function: the previous configuration is irrelevant *)
+Lemma full_set_merge_is_ctor cf thr bf a t :
+  a <> ANone ->
+  set_merge fexp None cf a (match a with AObj _ => None | _ => Some t end) (Some thr) (Some bf) =
+  ctor fexp None thr bf a (match a with AObj _ => None | _ => Some t end).
+Proof.
+  intros Ha. unfold set_merge, ctor. destruct a as [|n|c]; [congruence| |].
+  - cbn [opt_tol]. destruct (get_merge_accept_fn fexp n t); reflexivity.
+  - reflexivity.
+Qed.
 End Seq.
